@@ -9,24 +9,31 @@ PROP_FILES = ["Props/C16.v"]
 WIDTH = 160          # terminal width of the ANSI / plain / quiet cases (every frame fits: ASSUMPTIONS)
 NARROW = 30          # second width of the section cases: the frame wraps inside its section
 RULE = ("call sequences over {start(), start(max'), advance(1/3/-2/0/max//4), set_progress(0/1/max-1/max/max+3/7), display, clear, "
-        "finish, set_message(plain short / plain long / tagged short / tagged long / empty), write_line on the section below} with "
+        "finish, set_message(plain short / plain long / tagged short / tagged long / empty / with characters beyond ASCII), write_line on the section below} with "
         "the clock advanced by {0, 10, 50, 200, 2000} ms before each call (virtual clock of exact fractions) x maxima "
         "{0,1,3,10,50,200} x bar widths 1..40 (bars without maximum too: their offset is double arithmetic, modelled bit for bit) x "
         "formats (built-in per verbosity; custom: one line with %message%, two lines with %message% / %elapsed% / %estimated%, one "
         "line with %elapsed% %remaining% %estimated%, two lines without a maximum) x min-interval {0.1, 0, 0.05} x max-interval "
         "{1, 0.5} x set_redraw_frequency {-, 1, 2, 5} x progress character {'>', tagged '>'} x ANSI / plain / section (a second section below, width 160 or 30) / quiet "
-        "outputs (and quiet+plain, plain section, quiet section): all sequences up to length 3 (quick) / 4 (thorough) for six base "
+        "outputs (and quiet+plain, plain section, quiet section; the ANSI kinds also on a stream that says it supports ANSI with an "
+        "AnsiFormatter that is NOT forced - what a terminal gives) x the minimum interval given to the constructor or afterwards to "
+        "min_seconds_between_redraws(0.5 / 0.05 / 0.2 / 0) x a format showing a message set under a name of its own (%title%: plain, "
+        "tagged, never set) x in an eighth of the random cases one or two long waits (59 s .. 2.3 days: every form of format_time): all sequences up to length 3 (quick) / 4 (thorough) for seven base "
         "set-ups (ANSI, plain, no maximum with width 7, section with redraw frequency 2 and writes below, verbose custom format "
-        "with tagged messages and min-interval 0.05, plain without maximum and min-interval 0) under uniform and mixed timings, "
+        "with tagged messages and min-interval 0.05, plain without maximum and min-interval 0, a terminal with an unforced formatter and the "
+        "interval 0.2 given to the setter and a named message) under uniform and mixed timings, "
         "random sequences up to length 60 over everything; every stream write with its clock value is compared and replayed on "
         "a terminal emulator (after every call on a section output); non-trivial = >= 2 frames; distinct by case")
 TRUSTED = ["virtual clock: time.time replaced by exact fractions, constant during one call; Base/Term.v as the terminal; pastel is "
            "modelled by Model/Markup.v and SectionOutput by Model/Section.v (tied by C11 / C15 and by this run)"]
 ASSUMPTIONS = ["the bar and empty-bar characters are the 1-cell defaults, the progress character is one visible cell ('>', also inside a tag); messages are one line of good markup (no line break, every tag "
                "closed); on a non-section ANSI output every frame is shorter than the terminal width (the line clause); "
-               "%estimated% / %remaining% without a maximum raise the documented RuntimeError (model and code agree on it)"]
+               "%estimated% / %remaining% without a maximum raise the documented RuntimeError (model and code agree on it)",
+               "a message under a name of its own is set once, before the first call (for the model it is a literal piece of the format); "
+               "the whole run lasts less than seven days (format_time answers None beyond: the frame then says 'None' - code and model)"]
 
 DTS = [0, 10, 50, 200, 2000]
+LONG_DTS = [59000, 61000, 3600000, 5400000, 7200000, 90000000, 129600000, 200000000]      # ms: up to 2.3 days
 # pieces: [0, text] literal, 1 current, 2 max, 3 bar, [4, spec] percent, [5, spec] elapsed, [6, spec] estimated, 7 message,
 # [8, spec] remaining; spec = [] | [0, n] right-justified | [1, n] left-justified
 CUSTOM = {
@@ -41,7 +48,8 @@ CUSTOM = {
 NEEDS_MAX = ("c2", "c3")
 NAMES = {1: "current", 2: "max", 3: "bar", 4: "percent", 5: "elapsed", 6: "estimated", 7: "message", 8: "remaining"}
 MSGS = ["working", "a longer message here", "<info>ok</info>", "<info>a considerably longer tagged message</info> <b>done</b>",
-        "p<fg=red>q</>r", ""]
+        "p<fg=red>q</>r", "",
+        "re\u00e7u: donn\u00e9es \u03bb\u0436", "<info>\u00e9t\u00e9</info> \u00fc"]      # one-cell characters beyond ASCII (appended: earlier cases name messages by text)
 PCHARS = ["<info>></info>", "<b>></b>"]        # a progress character carrying a tag: one visible cell
 TITLES = ["Downloading", "<comment>stage 2</comment> of 3"]      # the message named 'title' of format c5 (None: never set)
 MINSETS = [0.5, 0.05, 0.2, 0]       # min_seconds_between_redraws(v) called after the constructor (0: the call changes nothing)
@@ -164,6 +172,11 @@ def gen(rng, tier, info):
             if o[0] == 0 and o[1] == 0 and fmt in NEEDS_MAX and rng.random() < 0.9:
                 continue
             ops.append([rng.choice(DTS), list(o)])
+        if ops and rng.random() < 0.12:
+            # a bar that runs for long: one or two long waits (minutes, hours, more than a day - every form format_time knows;
+            # the whole run stays under the seven days beyond which format_time answers None)
+            for _ in range(rng.choice([1, 2])):
+                ops[rng.randrange(len(ops))][0] = rng.choice(LONG_DTS)
         cases.append({"cfg": cfg, "ops": ops})
     info["exhaustive"] = True
     info["distribution"] = {"exhaustive": n_ex, "random": nrand, "depth": depth, "setups": len(exhaustive_setups())}
